@@ -13,7 +13,7 @@ import copy
 from dsim.canon import digest, jdump
 
 PROPERTY = "C16"
-QUICK_RUNS = 2000
+QUICK_RUNS = 1600
 THOROUGH_RUNS = 150000
 RULE = ("scenario = history of 4-20 derivation operations (TypeChecker.redefine/redefine_many/remove incl. unknown "
         "names, extend with keyword overrides/additions and/or a type checker, create with/without version, deprecated "
@@ -75,13 +75,13 @@ def generate(rng, tier="quick"):
     kinds = ["tc_redefine", "tc_redefine_many", "tc_remove", "tc_remove_unknown", "extend_noop", "extend_kw",
              "extend_tc", "extend_kw_tc", "create_clone", "create_plain", "create_version", "create_default_types",
              "create_illegal", "extend_illegal", "instance_types", "fc_new", "fc_subset", "fc_subset_unknown",
-             "fc_checks", "cls_checks", "suspend", "resume", "set_meta"]
+             "fc_checks", "cls_checks", "suspend", "resume", "set_meta", "mutate_meta_top", "tc_redefine_same_dict", "extend_version"]
     enabled = [k for k in kinds if rng.random() < 0.75] or kinds
     ops = []
     for i in range(n):
         k = rng.choice(enabled)
         op = {"op": k, "a": rng.randrange(1 << 16), "b": rng.randrange(1 << 16), "v": rng.randrange(4)}
-        if k in ("extend_kw", "extend_kw_tc"):
+        if k in ("extend_kw", "extend_kw_tc", "extend_version"):
             op["kws"] = rng.sample(OVERRIDABLE, rng.randint(1, 2))
         if k in ("tc_redefine", "tc_redefine_many", "tc_remove"):
             op["names"] = rng.sample(["even", "nonempty", "null", "any"], rng.randint(1, 2))
@@ -90,6 +90,14 @@ def generate(rng, tier="quick"):
         if k == "fc_subset":
             op["names"] = rng.sample(["ipv4", "date", "regex", "email"], rng.randint(0, 3))
         ops.append(op)
+        if k in ("create_version", "create_clone") and rng.random() < 0.6:
+            # a later versioned extension of the very class this one was cloned from (it re-registers the
+            # dialect the clone's metaschema names in its `$schema`)
+            ops.append({"op": rng.choice(["tc_redefine", "fc_new", "extend_noop"]), "a": rng.randrange(1 << 16),
+                        "b": rng.randrange(1 << 16), "v": rng.randrange(4), "names": ["even"]})
+            ops.append({"op": "extend_version", "a": op["a"], "b": rng.randrange(1 << 16), "v": rng.choice([1, 3, 2]),
+                        "same_as": len(ops) - 2, "kws": rng.sample(["minimum", "enum", "required", "items", "maxLength"],
+                                                                    rng.randint(1, 2))})
     return {"property": PROPERTY, "ops": ops, "base": rng.choice(["draft3", "draft4", "draft6", "draft7"])}
 
 
@@ -153,6 +161,10 @@ def execute(scn):
         ve = K({})
         vec["is_type"] = [[n, [outcome(lambda: bool(ve.is_type(v, n))) for v in (1, 1.0, "a", 2, None)]]
                           for n in ("integer", "even", "null", "ghost")]
+        vec["check_schema"] = [outcome(lambda: K.check_schema(copy.deepcopy(c)))
+                               for c in ({"minimum": "x"}, {"type": 12}, {"maxLength": -1}, {"minimum": 3, "type": "integer"},
+                                         {"properties": {"a": {"enum": []}}}, {"required": "a"})]
+        vec["default_types"] = outcome(lambda: sorted((k, repr(t)) for k, t in K.DEFAULT_TYPES.items()))
         return vec
 
     def probe_instance(v):
@@ -233,14 +245,15 @@ def execute(scn):
                         violations.append({"oracle": "earlier-class-keyword-table-changed", "where": step, "op": opname,
                                            "detail": {"object": [o["note"], o["born"]], "keyword": k}})
                         return
-        if registry_snapshot() != reg0:
-            violations.append({"oracle": "draft-registrations-disturbed", "where": step, "op": opname, "detail": {}})
+        # (which class a metaschema id dispatches to is C20's subject; extend(..., version=) legitimately rebinds it)
 
     def compare_with_parent(step, opname, parent, child_vec, changed_kws, tc_changed):
         pv = parent["vec"]
         if not changed_kws and not tc_changed:
             probe_count("noop_extend_compared")
-            for field in ("keywords", "id_of", "meta", "battery", "is_type"):
+            # (the deprecated DEFAULT_TYPES attribute is part of each object's own vector, but not of this
+            #  comparison: extend() never carries default_types over, and the property speaks of behaviour on inputs)
+            for field in ("keywords", "id_of", "meta", "battery", "is_type", "check_schema"):
                 if jdump(pv[field]) != jdump(child_vec[field]):
                     violations.append({"oracle": "unchanged-derivation-differs-from-parent", "where": step, "op": opname,
                                        "detail": {"field": field, "parent": parent["note"]}})
@@ -280,6 +293,7 @@ def execute(scn):
         return any(x in [["s", k] for k in kws] for x in sp)
 
     fresh_id = [0]
+    parents_used = {}
 
     for step, op in enumerate(scn["ops"]):
         k = op["op"]
@@ -317,6 +331,17 @@ def execute(scn):
                 compare_with_parent(step, k, parent, ent["vec"], sorted(kws), tc is not None)
                 ok = True
                 shared_touch += 1
+            elif k == "extend_version":
+                # extend(..., version=...) registers the new class under its PARENT's metaschema id (it inherits the
+                # metaschema): what `$schema` dispatches to afterwards is C20's business, but every existing class
+                # must go on behaving as before, check_schema included
+                parent = parents_used.get(op.get("same_as"), None) or pick("class", op["a"])
+                kws = dict((n, kw_override(n, op["v"])) for n in op.get("kws", ())) if op["v"] % 2 else {}
+                new = V.extend(parent["obj"], validators=kws, version="dsim c16 ext %d" % step)
+                ent = add("class", new, step, "extend_version<" + parent["note"])
+                compare_with_parent(step, k, parent, ent["vec"], sorted(kws), False)
+                ok = True
+                shared_touch += 1
             elif k == "extend_illegal":
                 # a class created with default_types cannot be extended with a type checker
                 with_dt = [o for o in objs if o["kind"] == "class" and o["note"].startswith("create_default_types")]
@@ -326,6 +351,7 @@ def execute(scn):
                     raise TypeError("nothing to do")
             elif k == "create_clone":
                 parent = pick("class", op["a"])
+                parents_used[step] = parent
                 P = parent["obj"]
                 new = V.create(meta_schema=P.META_SCHEMA, validators=P.VALIDATORS, type_checker=P.TYPE_CHECKER,
                                id_of=P.ID_OF)
@@ -340,6 +366,7 @@ def execute(scn):
                 ok = True
             elif k == "create_version":
                 parent = pick("class", op["a"])
+                parents_used[step] = parent
                 P = parent["obj"]
                 fresh_id[0] += 1
                 meta = dict(P.META_SCHEMA)
@@ -414,6 +441,30 @@ def execute(scn):
                     probe_count("derived_class_metaschema_replaced")
                     ok = True
                     shared_touch += 1
+            elif k == "mutate_meta_top":
+                # create() gives every class its own (shallow) copy of the metaschema: adding a top-level key to a
+                # derived class's copy must not reach its parent or its siblings
+                own = [o for o in objs if o["kind"] == "class" and o["born"] >= 0]
+                if own:
+                    tgt = own[op["a"] % len(own)]
+                    tgt["obj"].META_SCHEMA["x-dsim-note-%d" % step] = step
+                    tgt["vec"] = probe_class(tgt["obj"])
+                    probe_count("derived_class_metaschema_mutated_top_level")
+                    ok = True
+                    shared_touch += 1
+            elif k == "tc_redefine_same_dict":
+                # two checkers derived from ONE definitions dict object, then one of them loses a name
+                src = pick("tc", op["a"])
+                defs = dict((n, B.make_type(n, op["v"], collab)) for n in ("even", "nonempty"))
+                one = src["obj"].redefine_many(defs)
+                two = src["obj"].redefine_many(defs)
+                add("tc", one, step, k + ":one")
+                add("tc", two, step, k + ":two")
+                three = two.remove("even")
+                add("tc", three, step, k + ":two-minus-even")
+                defs["even"] = lambda checker, instance: True      # the caller's dict is the caller's business
+                ok = True
+                shared_touch += 1
             elif k == "suspend":
                 owner = pick("class", op["a"])
                 schema = {"items": {"type": "string", "maxLength": 1}, "maxItems": 1, "minimum": 5}
